@@ -2,7 +2,7 @@
 REPO   ?= /repo
 B      ?= build
 CXX    := g++
-COMMON := -std=c++11 -O2 -g -I$(REPO)/include -I/verif/common -DASL_STATIC -DASL_VERIF -Wno-deprecated-declarations
+COMMON := -std=c++11 -O2 -g -I$(REPO)/include -I/verif/common -I/verif/engine -DASL_STATIC -DASL_VERIF -Wno-deprecated-declarations
 ASANF  := -fsanitize=address -fno-omit-frame-pointer -fsanitize-recover=address -ftrivial-auto-var-init=pattern
 FLAGS_asan       := $(COMMON) $(ASANF)
 FLAGS_asan_small := $(COMMON) $(ASANF) -DASL_VERIF_SEND_BLOCK=8 -DASL_VERIF_RECV_BLOCK=5
@@ -34,6 +34,9 @@ $(B)/$(1)/vf.o: common/vf.cpp common/vf.h
 $(B)/$(1)/h/%.o: harness/%.cpp
 	@mkdir -p $$(dir $$@)
 	$(CXX) $$(FLAGS_$(1)) -fno-access-control -MMD -MP -c $$< -o $$@
+$(B)/$(1)/bin/s_%: $(B)/$(1)/h/s_%.o $(B)/$(1)/vf.o $(B)/$(1)/libasl.a $(B)/vsched.o $(B)/vnet.o
+	@mkdir -p $$(dir $$@)
+	$(CXX) $$(LD_$(1)) -o $$@ $$< $(B)/$(1)/vf.o $(B)/vsched.o $(B)/vnet.o $(B)/$(1)/libasl.a -lpthread -ldl
 $(B)/$(1)/bin/%: $(B)/$(1)/h/%.o $(B)/$(1)/vf.o $(B)/$(1)/libasl.a
 	@mkdir -p $$(dir $$@)
 	$(CXX) $$(LD_$(1)) -o $$@ $$< $(B)/$(1)/vf.o $$(EXTRA_$$*) $(B)/$(1)/libasl.a -lpthread -ldl
@@ -42,7 +45,10 @@ endef
 $(foreach f,$(FLAVOURS),$(eval $(call FLAVOUR_RULES,$(f))))
 
 # scheduler engine: never instrumented (it must not confuse the sanitizers with its hand-offs)
-$(B)/vsched.o: engine/vsched.cpp engine/vsched.h
+$(B)/vsched.o: engine/vsched.cpp engine/vsched.h engine/vsched_internal.h
+	@mkdir -p $(dir $@)
+	$(CXX) -std=c++11 -O2 -g -fPIC -c $< -o $@
+$(B)/vnet.o: engine/vnet.cpp engine/vnet.h engine/vsched_internal.h
 	@mkdir -p $(dir $@)
 	$(CXX) -std=c++11 -O2 -g -fPIC -c $< -o $@
 
